@@ -557,8 +557,8 @@ pub(crate) mod verif_cmd {
             let should = !ASK_FAIL && !NEWPASS_FAIL && !UNLOCK_FAIL && !ct_codecs::kani_model::ATT_ERR;
             assert!(ok == should, "[C12,C16] change-pass succeeds iff both passwords were obtained, the key string is well formed and the old password unlocks it");
             if ok {
-                assert!(UNLOCK_N == 1 && UNLOCK_BLOB0 == b'B' && UNLOCK_PW0 == b'p', "[C16] the given locked key is unlocked with the OLD password");
-                assert!(LOCK_N == 1 && eq32(&LOCK_SK, &UNLOCK_SK), "[C16] exactly the unlocked private key is re-locked (the key keeps its identity)");
+                assert!(UNLOCK_N == 1 && UNLOCK_BLOB0 == b'B' && UNLOCK_PW0 == b'p', "[C16,C07] the given locked key is unlocked with the OLD password");
+                assert!(LOCK_N == 1 && eq32(&LOCK_SK, &UNLOCK_SK), "[C16,C07] exactly the unlocked private key is re-locked, on every change - also when the new password equals the old one (the key keeps its identity, the salt does not)");
                 assert!(LOCK_PWLEN == 1 && LOCK_PW0 == (if NEWPASS_SAME { b'p' } else { b'q' }), "[C16] ... under the NEW password");
                 assert!(RNG_N == 1 && RNG_LEN_OK && eq32(&LOCK_SALT, &RNG_OUT[0]), "[C16,C07] ... and a fresh 32-byte CSPRNG salt (every change, whatever the passwords)");
             } else {
